@@ -113,3 +113,148 @@ pub fn opt_ty(t: Option<Type>) -> String {
 pub fn tys_to_string(ts: &[Type]) -> String {
     format!("({})", ts.iter().map(ty_to_string).collect::<Vec<_>>().join(" "))
 }
+
+// ---------------- values ----------------
+use simplesl::variable::Variable;
+
+pub fn val_of_sexp(s: &Sexp) -> Result<Variable, String> {
+    use Sexp::*;
+    match s {
+        A(a) if a == "void" => Ok(Variable::Void),
+        L(items) => {
+            let head = match items.first() {
+                Some(A(h)) => h.as_str(),
+                _ => return Err("value head".into()),
+            };
+            let rest = &items[1..];
+            match head {
+                "i" => match rest.first() {
+                    Some(A(n)) => Ok(Variable::Int(n.parse::<i64>().map_err(|e| e.to_string())?)),
+                    _ => Err("int".into()),
+                },
+                "f" => match rest.first() {
+                    Some(A(n)) => Ok(Variable::Float(f64::from_bits(
+                        n.parse::<u64>().map_err(|e| e.to_string())?,
+                    ))),
+                    _ => Err("float".into()),
+                },
+                "b" => match rest.first() {
+                    Some(A(n)) => Ok(Variable::Bool(n == "true")),
+                    _ => Err("bool".into()),
+                },
+                "s" => match rest.first() {
+                    Some(S(st)) => Ok(Variable::String(st.as_str().into())),
+                    _ => Err("string".into()),
+                },
+                "arr" => {
+                    let vs: Vec<Variable> = rest.iter().map(val_of_sexp).collect::<Result<_, _>>()?;
+                    Ok(Variable::from(vs))
+                }
+                "tup" => {
+                    let vs: Arc<[Variable]> = rest.iter().map(val_of_sexp).collect::<Result<_, _>>()?;
+                    Ok(Variable::Tuple(vs))
+                }
+                "struct" => {
+                    let mut vm: HashMap<Arc<str>, Variable> = HashMap::new();
+                    for f in rest {
+                        let L(kv) = f else { return Err("field".into()) };
+                        let (Some(A(k)), Some(v)) = (kv.first(), kv.get(1)) else {
+                            return Err("field".into());
+                        };
+                        vm.insert(k.as_str().into(), val_of_sexp(v)?);
+                    }
+                    Ok(Variable::Struct(vm.into()))
+                }
+                _ => Err(format!("value head {head}")),
+            }
+        }
+        _ => Err("value".into()),
+    }
+}
+
+/// canonical value text; `types` adds the stored element type of arrays and the
+/// declared type of cells.  Functions and cells are numbered in order of first
+/// appearance (identity), via `ids`.
+pub struct Ids {
+    pub funs: Vec<*const ()>,
+    pub muts: Vec<*const ()>,
+}
+
+impl Ids {
+    pub fn new() -> Self {
+        Ids { funs: vec![], muts: vec![] }
+    }
+    fn id(list: &mut Vec<*const ()>, p: *const ()) -> usize {
+        if let Some(i) = list.iter().position(|x| *x == p) {
+            i
+        } else {
+            list.push(p);
+            list.len() - 1
+        }
+    }
+}
+
+pub fn val_to_string(v: &Variable, types: bool, ids: &mut Ids, depth: usize) -> String {
+    if depth > 64 {
+        return "(deep)".into();
+    }
+    match v {
+        Variable::Bool(b) => format!("(b {b})"),
+        Variable::Int(i) => format!("(i {i})"),
+        Variable::Float(f) => {
+            if f.is_nan() {
+                "(f nan)".into()
+            } else {
+                format!("(f {})", f.to_bits())
+            }
+        }
+        Variable::String(s) => format!("(s {})", crate::sexp::quote(s)),
+        Variable::Function(f) => {
+            let id = Ids::id(&mut ids.funs, Arc::as_ptr(f) as *const ());
+            if types {
+                use simplesl::variable::Typed;
+                format!("(fun {} {})", id, ty_to_string(&f.as_type()))
+            } else {
+                format!("(fun {id})")
+            }
+        }
+        Variable::Array(a) => {
+            let elems: String = a.iter().map(|x| format!(" {}", val_to_string(x, types, ids, depth + 1))).collect();
+            if types {
+                format!("(arr {}{})", ty_to_string(a.element_type()), elems)
+            } else {
+                format!("(arr{elems})")
+            }
+        }
+        Variable::Tuple(t) => format!(
+            "(tup{})",
+            t.iter().map(|x| format!(" {}", val_to_string(x, types, ids, depth + 1))).collect::<String>()
+        ),
+        Variable::Mut(m) => {
+            let id = Ids::id(&mut ids.muts, Arc::as_ptr(m) as *const ());
+            let content = match m.variable.try_read() {
+                Ok(g) => val_to_string(&g, types, ids, depth + 1),
+                Err(_) => "(locked)".into(),
+            };
+            if types {
+                format!("(mut {} {} {})", id, ty_to_string(&m.var_type), content)
+            } else {
+                format!("(mut {id} {content})")
+            }
+        }
+        Variable::Struct(vm) => {
+            let mut l: Vec<(String, String)> = vm
+                .iter()
+                .map(|(k, x)| (k.to_string(), val_to_string(x, types, ids, depth + 1)))
+                .collect();
+            l.sort();
+            format!("(struct{})", l.iter().map(|(k, x)| format!(" ({k} {x})")).collect::<String>())
+        }
+        Variable::Void => "void".into(),
+    }
+}
+
+pub fn variant_name<T: std::fmt::Debug>(e: &T) -> String {
+    let s = format!("{e:?}");
+    s.chars().take_while(|c| c.is_alphanumeric() || *c == '_').collect()
+}
